@@ -54,6 +54,8 @@ func SafeCompile(src string, opts ...expr.Option) (p *vm.Program, o Outcome) {
 			p = nil
 		}
 	}()
+	runner.LibEnter()
+	defer runner.LibLeave()
 	p, o.Err = expr.Compile(src, opts...)
 	return
 }
@@ -65,6 +67,8 @@ func SafeRun(p *vm.Program, env interface{}) (o Outcome) {
 			o.Panic = r
 		}
 	}()
+	runner.LibEnter()
+	defer runner.LibLeave()
 	o.Val, o.Err = expr.Run(p, env)
 	return
 }
@@ -76,6 +80,8 @@ func SafeEval(src string, env interface{}) (o Outcome) {
 			o.Panic = r
 		}
 	}()
+	runner.LibEnter()
+	defer runner.LibLeave()
 	o.Val, o.Err = expr.Eval(src, env)
 	return
 }
